@@ -21,7 +21,7 @@ ASSUMPTIONS = [
 MANIFEST = {'text': 'structural necessary conditions: matches() can only return false (disabled), negated or !negated and treats a missing extended header as a failed criterion; '
                     'every criterion field matched on is serialised and every serialised key is parsed back; the case-insensitive literal matcher exists only under the ignore-case flag.'
                     ' Added: no default is substituted for an unspecified criterion; the short JSON form of the message-type criterion is written only for the mask it is reloaded with; scratch buffers of the text front-ends are re-initialised between two ids. Added: text taken from the input reaches the filter verbatim in every front-end (no trim / case folding / replace in the provenance of a text sink). Added: the compiled matcher of a literal ignore-case payload is built from regex::escape(text).',
-            'technique': 'static analysis: MIR return-value census, read-set / string-key table agreement, control-dependence (dominating guard) check Added: list criteria (lifecycles) are tested by order-independent membership in matches() (no binary search / first / last on a list whose order the configuration decides).'}
+            'technique': 'static analysis: MIR return-value census, read-set / string-key table agreement, control-dependence (dominating guard) check Added: list criteria (lifecycles) are tested by order-independent membership in matches() (no binary search / first / last on a list whose order the configuration decides). Added: the regex-character predicate shared by all auto-detecting front-ends answers true for every operator of the regex syntax (decided by constant interpretation per character).'}
 
 FILTER = 'adlt::filter::filter_impl::Filter'
 DERIVED = {'payload_as_regex': 'cache derived from payload + ignore_case_payload'}
@@ -86,6 +86,8 @@ def run(F, chk):
     check_autodetect_only_when_absent(F, F8)
     F9 = chk.rule('F9', 'the regex compiled for a *literal* payload (ignore-case matcher `payload_as_regex`) is built from regex::escape(text)')
     check_literal_regex_escaped(F, F9)
+    F11 = chk.rule('F11', 'regex auto-detection: the predicate all front-ends use to decide "this id / payload text is a regular expression" answers true for every operator of the regex syntax ( \\ . + * ? ( ) | [ ] { } ^ $ ), decided by constant interpretation of the predicate for each character')
+    check_regex_char_predicate(F, F11)
     F10 = chk.rule('F10', 'matches() tests a list criterion (lifecycles) by order-independent membership: no binary search / partition / first / last on a list of the filter (its order is whatever the configuration gave)')
     check_list_membership(F, m, F10)
 
@@ -94,6 +96,74 @@ HELPERS_OF_MATCHES = []
 
 ORDER_ASSUMING = re.compile(r'::(binary_search|binary_search_by|binary_search_by_key|partition_point|first|last|split_first|split_last|is_sorted|is_sorted_by|is_sorted_by_key|dedup)$')
 MEMBERSHIP = re.compile(r'::(contains|iter|is_empty|len|into_iter|as_slice|deref|as_ref|any|all)$')
+
+
+REGEX_OPERATORS = '\\.+*?()|[]{}^$'
+
+
+def check_regex_char_predicate(F, F11):
+    """"literal 4-byte id or regular expression": without an explicit flag the front-ends (JSON, DLF, ECU:APID:CTID) ask one
+    predicate whether a text contains regex characters.  If the predicate misses an operator of the regex syntax, a pattern
+    whose only special character is that operator is stored as a literal id: it selects nothing (negated: everything) and
+    disagrees with the same filter given with the explicit flag.  The character domain is finite: the closure (or the function
+    of one character) is interpreted with each operator as a constant input."""
+    import cinterp
+    b = F.get('adlt::utils::contains_regex_chars')
+    if b is None:
+        F11.violation(('anchor-lost', 'contains_regex_chars'), 'the regex character predicate adlt::utils::contains_regex_chars was not found')
+        return
+    F11.fn(b.path)
+    preds = [c for c in F.closures_of(b.path) if len(c.arg_types()) == 2 and c.arg_types()[1] in ('char', 'u8', '&char', '&u8') and c.ret_type() == 'bool']
+    # string constants of the function (`"^$*+?..".contains(c)` / a table): the fallback when the predicate is not interpretable
+    import json
+    consts = ''.join(re.findall(r'"s": "((?:[^"\\\\]|\\\\.)*)"', json.dumps([blk.term.d for x in [b] + list(F.closures_of(b.path)) for blk in x.blocks] + [s_.d for x in [b] + list(F.closures_of(b.path)) for blk in x.blocks for s_ in blk.stmts])))
+    # .. and the text of named string constants the function refers to (`const REGEX_CHARS: &str = ".."`)
+    local_consts = set(k for k in F.consts if k.startswith(b.path + '::'))      # constants declared inside the predicate (a promoted `&TABLE` does not name them)
+    mod_prefix = b.path.rsplit('::', 1)[0] + '::'
+    if re.search(r'promoted\[', json.dumps([s_.d for x in [b] + list(F.closures_of(b.path)) for blk in x.blocks for s_ in blk.stmts])):
+        # a promoted reference hides which table is meant: the character tables of the predicate's module
+        local_consts |= set(k for k, ce in F.consts.items() if k.startswith(mod_prefix) and '::' not in k[len(mod_prefix):] and re.match(r'^\[(char|u8); \d+\]$', ce.get('t', '')))
+    for ref in local_consts | set(re.findall(r'"s": "(adlt::[\w:]+)"', json.dumps([blk.term.d for x in [b] + list(F.closures_of(b.path)) for blk in x.blocks] + [s_.d for x in [b] + list(F.closures_of(b.path)) for blk in x.blocks for s_ in blk.stmts]))):
+        ce = F.consts.get(ref) or {}
+        if isinstance(ce.get('str'), str):
+            consts += ce['str']
+        if isinstance(ce.get('arr'), list) and re.match(r'^\[(char|u8); \d+\]$', ce.get('t', '')):
+            consts += ''.join(chr(v) for v in ce['arr'] if isinstance(v, int) and 0 < v < 0x110000)      # `const TABLE: [char; N]`
+    missing = []
+    how = None
+    if len(preds) == 1:
+        I = cinterp.Interp(F)
+        try:
+            for ch in REGEX_OPERATORS:
+                F11.sites += 1
+                r = I.run(preds[0], [None, ord(ch)])
+                if r[1] not in (0, 1):
+                    raise cinterp.Unknown('the predicate calls something the interpreter does not model')
+                if r[1] != 1:
+                    missing.append(ch)
+            how = 'constant interpretation of %s for each operator' % preds[0].path
+        except cinterp.Unknown as e:
+            how = None
+    if how is None:
+        F11.sites += len(REGEX_OPERATORS)
+        missing = [ch for ch in REGEX_OPERATORS if ch not in consts and json.dumps(ch)[1:-1] not in consts]
+        how = 'operators listed in the string constants of the predicate'
+        if len(missing) == len(REGEX_OPERATORS):
+            F11.violation(('regex-predicate-undecided', b.path), 'cannot decide which characters %s treats as regex characters (no one-character predicate to interpret, no operator in its constants)' % b.path, where=b.loc(None))
+            return
+    if missing:
+        F11.violation(('regex-operator-not-detected', b.path, ''.join(missing)), 'contains_regex_chars answers false for the regex operator(s) %s: an id or payload pattern whose only special character is one of them is auto-detected as a literal by every front-end without an explicit regex flag '
+                      '- the filter selects nothing (negated: everything) and disagrees with the same filter given as regex' % ' '.join(missing), where=b.loc(None))
+    else:
+        F11.ok(n=len(REGEX_OPERATORS), sample={'predicate': b.path, 'operators_detected': REGEX_OPERATORS, 'decided_by': how})
+    # the front-ends must use it
+    users = set()
+    for x in F.order:
+        if x.crate in ('lib', 'bin'):
+            for blk in x.calls():
+                if blk.term.callee.path == b.path:
+                    users.add((x.closure_of or x.path))
+    F11.floor('front-end functions asking the predicate', len(users), 2)
 
 
 def check_list_membership(F, m, F10):
